@@ -446,7 +446,9 @@ func replayFile(res *abs.Result, in replayInput, part string, seed int64, w, W i
 			return fmt.Errorf("line has %d key classes, want %d", len(l.Look), nk)
 		}
 		descs++
-		rnd := rand.New(rand.NewSource(lineSeed(seed, raw)))
+		ls := lineSeed(seed, raw)
+		rnd := rand.New(rand.NewSource(ls))
+		gt.n = int(ls % 1024) // which call variants a case gets depends on the descriptor and the seed only
 		ages := make([]int64, n)
 		for i := range ages {
 			if l.Ids[i] != 0 {
